@@ -15,6 +15,7 @@ def run(pid, tier, replay=None):
         "(24-point grid, every phase boundary and 2^-8 either side of it, before the start, after the end) and, through the Lipschitz form, between consecutive samples; not for every real instant",
         "requests are integers: all limits / distances / boundary velocities from small sets, both directions; trapezoid start velocity also against the direction of travel",
         "requests for which the generator reports duration 0 carry no claim",
+        "besides the enumerated requests, seeded random feasible integer requests from much wider ranges (limits to 20, distances to 300): 3000 quick, 60000 thorough",
     ]
     consts = ["CONSTANTS VM = %s" % ("{1, 2, 3}" if q else "{1, 2, 3, 5, 8, 13}"), " AC = %s" % ("{1, 2}" if q else "{1, 2, 4, 7}"), " DE = %s" % ("{1, 3}" if q else "{1, 2, 3, 5}"),
               " DIST = %s" % ("{1, 2, 5, 9}" if q else "{1, 2, 3, 4, 5, 7, 9, 20, 50, 100}"), " VB = %s" % ("{0, 1, 2}" if q else "{0, 1, 2, 3, 5}"),
@@ -24,7 +25,7 @@ def run(pid, tier, replay=None):
     res = tlc(os.path.join(SPECDIR, "TrajMC.tla"), cfg, sc, timeout=1800, heap="8g", capture_prefix="10[12]0[12]0[12]", stdout_path=out, workers=8)
     tlc_must_pass(res, "TrajMC")
     exe = vlib.cc_build(sc.path("traj_h"), [os.path.join(vlib.HARNESS, "traj_h.c")] + vlib.repo_src("trajtrap.c", "trajbell.c", "math.c", "a.c"), sc)
-    r = vlib.run_harness([exe, out, sc.path("g"), "14"], timeout=1800)
+    r = vlib.run_harness([exe, out, sc.path("g"), "14", "3000" if q else "60000", str(ck.seed)], timeout=1800)
     m = re.search(r"^SUMMARY (\{.*\})$", r.stdout or "", re.M)
     if r.returncode != 0 or not m:
         if r.returncode in (97, 98, 99, -6, -11) or "Sanitizer" in (r.stderr or ""):
